@@ -70,7 +70,7 @@ def established (d : Directive) (dirs : Directives) : Prop :=
 theorem established_doNotCache {d : Directive} {dirs : Directives} (h : established d dirs) :
     dirs.doNotCache = true := by
   unfold Directives.doNotCache
-  cases d <;> simp only [established] at h <;> simp [h]
+  cases d <;> simp only [established] at h <;> simp [h, nonPositive]
 
 /-- the recognised spelling establishes the directive, whatever was parsed before -/
 theorem established_set (d : Directive) (dirs : Directives) : established d (applyPart dirs d.text) := by
@@ -252,12 +252,13 @@ theorem doNotCache_sound (h : Header) (hd : (getCacheControlDirectives h).doNotC
     exact ⟨e, he, hp2⟩
 
 /-- what such a reason looks like: a bare `private` / `no-cache` / `no-store` (SP / HTAB aside), or
-    `max-age` / `s-maxage` with exactly one `=` and a value `strconv.Atoi` reads as 0 -/
+    `max-age` / `s-maxage` with exactly one `=` and a value `strconv.Atoi` reads as a number ≤ 0
+    (zero, or negative since the fix: commit for finding C09-g) -/
 theorem reason_shape (p : Bytes) (h : (applyPart {} p).doNotCache = true) :
     (contains p b!"=" = false ∧
       (trim b!" \t" p = b!"private" ∨ trim b!" \t" p = b!"no-cache" ∨ trim b!" \t" p = b!"no-store")) ∨
     (∃ k0 v0, split1 61 p = [k0, v0] ∧ (trim b!" \t" k0 = b!"max-age" ∨ trim b!" \t" k0 = b!"s-maxage") ∧
-      atoi (trim b!" \t" v0) = some 0) := by
+      ∃ n : Int, n ≤ 0 ∧ atoi (trim b!" \t" v0) = some n) := by
   unfold applyPart at h
   unfold partEffect at h
   split at h
@@ -270,24 +271,24 @@ theorem reason_shape (p : Bytes) (h : (applyPart {} p).doNotCache = true) :
       · rename_i hk
         refine ⟨Or.inl hk, ?_⟩
         cases ha : atoi (trim b!" \t" v0) with
-        | none => simp [ha, PartEffect.apply, Directives.doNotCache] at h
+        | none => simp [ha, PartEffect.apply, Directives.doNotCache, nonPositive] at h
         | some n =>
           simp only [ha, PartEffect.apply, Directives.doNotCache] at h
-          simpa using h
+          exact ⟨n, by simpa [nonPositive] using h, rfl⟩
       · split at h
         · rename_i hk
           refine ⟨Or.inr hk, ?_⟩
           cases ha : atoi (trim b!" \t" v0) with
-          | none => simp [ha, PartEffect.apply, Directives.doNotCache] at h
+          | none => simp [ha, PartEffect.apply, Directives.doNotCache, nonPositive] at h
           | some n =>
             simp only [ha, PartEffect.apply, Directives.doNotCache] at h
-            simpa using h
+            exact ⟨n, by simpa [nonPositive] using h, rfl⟩
         · split at h
-          · cases ha : atoi (trim b!" \t" v0) <;> simp [ha, PartEffect.apply, Directives.doNotCache] at h
+          · cases ha : atoi (trim b!" \t" v0) <;> simp [ha, PartEffect.apply, Directives.doNotCache, nonPositive] at h
           · split at h
-            · cases ha : atoi (trim b!" \t" v0) <;> simp [ha, PartEffect.apply, Directives.doNotCache] at h
-            · simp [PartEffect.apply, Directives.doNotCache] at h
-    · simp [PartEffect.apply, Directives.doNotCache] at h
+            · cases ha : atoi (trim b!" \t" v0) <;> simp [ha, PartEffect.apply, Directives.doNotCache, nonPositive] at h
+            · simp [PartEffect.apply, Directives.doNotCache, nonPositive] at h
+    · simp [PartEffect.apply, Directives.doNotCache, nonPositive] at h
   · rename_i hc
     refine Or.inl ⟨by simpa using hc, ?_⟩
     dsimp only at h
@@ -297,7 +298,7 @@ theorem reason_shape (p : Bytes) (h : (applyPart {} p).doNotCache = true) :
       · rename_i hp; exact Or.inr (Or.inl hp)
       · split at h
         · rename_i hp; exact Or.inr (Or.inr hp)
-        · simp [PartEffect.apply, Directives.doNotCache] at h
+        · simp [PartEffect.apply, Directives.doNotCache, nonPositive] at h
 
 /-- a response without any Cache-Control line is never "do not cache" -/
 theorem no_cache_control_cacheable (h : Header) (hv : h.values b!"cache-control" = []) :
